@@ -1142,15 +1142,20 @@ func (s *Server) publishToClient(cl *Client, sub packets.Subscription, pk packet
 		out.PacketID = uint16(i) // [MQTT-2.2.1-4]
 		sentQuota := atomic.LoadInt32(&cl.State.Inflight.sendQuota)
 
-		if ok := cl.State.Inflight.Set(out); ok { // [MQTT-4.3.2-3] [MQTT-4.3.3-3]
+		// the stored copy carries the topic name, not an alias: an alias is only known on the connection it was
+		// established on, and the message may be sent again on another one
+		stored := out
+		stored.TopicName = pk.TopicName
+		stored.Properties.TopicAlias, stored.Properties.TopicAliasFlag = 0, false
+		if ok := cl.State.Inflight.Set(stored); ok { // [MQTT-4.3.2-3] [MQTT-4.3.3-3]
 			atomic.AddInt64(&s.Info.Inflight, 1)
-			s.hooks.OnQosPublish(cl, out, out.Created, 0)
+			s.hooks.OnQosPublish(cl, stored, out.Created, 0)
 			cl.State.Inflight.DecreaseSendQuota()
 		}
 
 		if sentQuota == 0 && atomic.LoadInt32(&cl.State.Inflight.maximumSendQuota) > 0 {
-			out.Expiry = -1
-			cl.State.Inflight.Set(out)
+			stored.Expiry = -1
+			cl.State.Inflight.Set(stored)
 			return out, nil
 		}
 	}
